@@ -2,7 +2,7 @@
 //! through the public API, plus transfer syntax plumbing.
 
 use dcmref::ds::{self, Elem, Prim, Syntax, Val};
-use dicom_core::value::{DataSetSequence, PixelFragmentSequence};
+use dicom_core::value::{DataSetSequence, DicomDate, DicomDateTime, DicomTime, PixelFragmentSequence};
 use dicom_core::{DataElement, Length, PrimitiveValue, Tag, VR};
 use dicom_encoding::TransferSyntax;
 use dicom_object::InMemDicomObject;
@@ -28,6 +28,114 @@ const SINGLE_TEXT: [&[u8; 2]; 4] = [b"LT", b"ST", b"UT", b"UR"];
 
 fn latin1_string(b: &[u8]) -> String {
     b.iter().map(|&c| c as char).collect()
+}
+
+fn digits(b: &[u8]) -> Option<u32> {
+    if b.is_empty() || !b.iter().all(|c| c.is_ascii_digit()) {
+        return None;
+    }
+    std::str::from_utf8(b).ok()?.parse().ok()
+}
+
+fn typed_date(b: &[u8]) -> Option<DicomDate> {
+    match b.len() {
+        4 => DicomDate::from_y(digits(b)? as u16).ok(),
+        6 => DicomDate::from_ym(digits(&b[..4])? as u16, digits(&b[4..])? as u8).ok(),
+        8 => DicomDate::from_ymd(digits(&b[..4])? as u16, digits(&b[4..6])? as u8, digits(&b[6..])? as u8).ok(),
+        _ => None,
+    }
+}
+
+fn typed_time(b: &[u8]) -> Option<DicomTime> {
+    let f = |r: std::ops::Range<usize>| digits(&b[r]).map(|x| x as u8);
+    match b.len() {
+        2 => DicomTime::from_h(f(0..2)?).ok(),
+        4 => DicomTime::from_hm(f(0..2)?, f(2..4)?).ok(),
+        6 => DicomTime::from_hms(f(0..2)?, f(2..4)?, f(4..6)?).ok(),
+        // the public constructors offer exactly 3 or 6 fraction digits
+        10 if b[6] == b'.' => DicomTime::from_hms_milli(f(0..2)?, f(2..4)?, f(4..6)?, digits(&b[7..])?).ok(),
+        13 if b[6] == b'.' => DicomTime::from_hms_micro(f(0..2)?, f(2..4)?, f(4..6)?, digits(&b[7..])?).ok(),
+        _ => None,
+    }
+}
+
+fn typed_datetime(b: &[u8]) -> Option<DicomDateTime> {
+    use dicom_core::chrono::FixedOffset;
+    let (body, tz) = match b.iter().position(|c| *c == b'+' || *c == b'-') {
+        Some(i) => {
+            let z = &b[i + 1..];
+            if z.len() != 4 {
+                return None;
+            }
+            let secs = (digits(&z[..2])? * 3600 + digits(&z[2..])? * 60) as i32;
+            let off = if b[i] == b'+' { FixedOffset::east_opt(secs)? } else { FixedOffset::west_opt(secs)? };
+            (&b[..i], Some(off))
+        }
+        None => (b, None),
+    };
+    if body.len() <= 8 {
+        let d = typed_date(body)?;
+        return Some(match tz {
+            Some(z) => DicomDateTime::from_date_with_time_zone(d, z),
+            None => DicomDateTime::from_date(d),
+        });
+    }
+    let d = typed_date(&body[..8])?;
+    let t = typed_time(&body[8..])?;
+    match tz {
+        Some(z) => DicomDateTime::from_date_and_time_with_time_zone(d, t, z).ok(),
+        None => DicomDateTime::from_date_and_time(d, t).ok(),
+    }
+}
+
+/// The same abstract value as a *typed* in-memory value (dates, times,
+/// date-times; integers and decimals for IS/DS) when every component of the
+/// text has a form the public constructors can express and whose standard
+/// text form is the text itself. `None`: only the string form exists.
+pub fn typed_value(vr: &[u8; 2], b: &[u8]) -> Option<PrimitiveValue> {
+    if b.is_empty() {
+        return None;
+    }
+    let parts: Vec<&[u8]> = b.split(|c| *c == b'\\').collect();
+    match vr {
+        b"DA" => Some(PrimitiveValue::Date(parts.iter().map(|p| typed_date(p)).collect::<Option<_>>()?)),
+        b"TM" => Some(PrimitiveValue::Time(parts.iter().map(|p| typed_time(p)).collect::<Option<_>>()?)),
+        b"DT" => Some(PrimitiveValue::DateTime(parts.iter().map(|p| typed_datetime(p)).collect::<Option<_>>()?)),
+        b"IS" => {
+            let mut v = Vec::new();
+            for p in &parts {
+                let t = std::str::from_utf8(p).ok()?;
+                let n: i32 = t.parse().ok()?;
+                if n.to_string() != t {
+                    return None;
+                }
+                v.push(n);
+            }
+            Some(PrimitiveValue::I32(v.into_iter().collect()))
+        }
+        b"DS" => {
+            let mut v = Vec::new();
+            for p in &parts {
+                let t = std::str::from_utf8(p).ok()?;
+                let n: f64 = t.parse().ok()?;
+                if n.to_string() != t {
+                    return None;
+                }
+                v.push(n);
+            }
+            Some(PrimitiveValue::F64(v.into_iter().collect()))
+        }
+        _ => None,
+    }
+}
+
+fn content_coin(tag: ds::Tag, b: &[u8]) -> bool {
+    // a function of the (tape-drawn) content, so that no extra draw is needed
+    let mut h: u32 = 0x811C_9DC5 ^ ((tag.0 as u32) << 16 | tag.1 as u32);
+    for c in b {
+        h = (h ^ *c as u32).wrapping_mul(0x0100_0193);
+    }
+    (h >> 7) & 1 == 0
 }
 
 pub fn prim_value(vr: &[u8; 2], p: &Prim) -> PrimitiveValue {
@@ -70,6 +178,11 @@ pub fn prim_value(vr: &[u8; 2], p: &Prim) -> PrimitiveValue {
     }
 }
 
+thread_local! {
+    /// how many elements `build_object` gave a typed (non-string) date/time/number value
+    pub static TYPED_BUILT: std::cell::Cell<u64> = const { std::cell::Cell::new(0) };
+}
+
 /// Build the object through the public API. Items built this way always have
 /// undefined length (the API offers nothing else); a sequence can carry a
 /// defined length, which is computed for `syn` by the reference encoder.
@@ -78,6 +191,10 @@ pub fn build_object(elems: &[Elem], syn: Syntax) -> InMemDicomObject {
     for e in elems {
         let tag = Tag(e.tag.0, e.tag.1);
         let de = match &e.val {
+            Val::Prim(Prim::Text(b)) if content_coin(e.tag, b) && typed_value(&e.vr, b).is_some() => {
+                TYPED_BUILT.with(|c| c.set(c.get() + 1));
+                DataElement::new(tag, vr_of(&e.vr), typed_value(&e.vr, b).unwrap())
+            }
             Val::Prim(p) => DataElement::new(tag, vr_of(&e.vr), prim_value(&e.vr, p)),
             Val::Seq { items, undef } => {
                 let objs: Vec<InMemDicomObject> = items.iter().map(|it| build_object(&it.elems, syn)).collect();
